@@ -232,6 +232,10 @@ func (w *World) totpCode(secretID, which int, junk string) string {
 		}
 		return "000000"
 	}
+	return w.totpCodeAt(secretID, which)
+}
+
+func (w *World) totpCodeAt(secretID, which int) string {
 	t := w.T0
 	switch which {
 	case 2:
@@ -542,6 +546,8 @@ func (w *World) classify(e Event, r Resp) RespObs {
 		o.Class = "redirect"
 		if strings.HasPrefix(loc, "/auth/login?") {
 			o.Class = "refuseLogin"
+		} else if strings.HasPrefix(loc, "http://pa.test/auth") || strings.HasPrefix(loc, "http://pb.test/auth") {
+			o.Loc = "provider"
 		} else if n, ok := locNames[loc]; ok {
 			o.Loc = n
 		} else if u, err := url.Parse(loc); err == nil && locNames[u.Path] != "" {
@@ -613,6 +619,7 @@ func (w *World) Step(e Event) (RespObs, *Req, Resp) {
 		return envResp(), nil, Resp{}
 	case "DropSession":
 		w.In.Sess.Clear(e.B)
+		delete(w.smsSeen, e.B)
 		return envResp(), nil, Resp{}
 	case "JunkCookie":
 		v := "bm90IGEgdG9rZW4"
@@ -635,7 +642,9 @@ func (w *World) Step(e Event) (RespObs, *Req, Resp) {
 		return envResp(), nil, Resp{}
 	}
 	rq := w.BuildReq(e)
+	w.rebaseSMS()
 	r := w.In.Do(rq)
+	w.noteSMS()
 	w.learn(r)
 	return w.classify(e, r), &rq, r
 }
